@@ -38,8 +38,48 @@ def check(m, run):
     run.floor('GD1.check-dominates-store', 6, 'six concrete knot vector setters')
     run.floor('KC1.check-structure', 4, 'length test, order scan, coverage, final True')
     run.floor('LY4.generate-length', 2, 'clamped / unclamped')
+    kw1(m, run)
     run.floor('OT1.span-is-the-half-open-interval', 2, 'linear and binary span search over the order-type box (HO1 is the syntactic fast path and may be absent)')
     run.floor('TOL1.two-sided-tolerance', 2, 'find_multiplicity, binsearch end snap')
+
+
+def kw1_findings(fns, resolve):
+    out = []
+    for mod, fn in fns:
+        if not fn.args.kwarg:
+            continue
+        body = [x for x in fn.body if not (isinstance(x, ast.Expr) and isinstance(x.value, ast.Constant))]
+        if len(body) == 1 and isinstance(body[0], (ast.Return, ast.Expr)) and isinstance(body[0].value, ast.Call):
+            c = body[0].value
+            tgt = resolve(mod, c.func)
+            if tgt is None or not (tgt.args.kwarg or tgt.args.defaults or tgt.args.kwonlyargs):
+                continue
+            out.append((fn, c, any(k.arg is None for k in c.keywords)))
+    return out
+
+
+def kw1(m, run):
+    """KW1: a pure delegation wrapper that declares **kwargs (the compatibility names in utilities delegate to knotvector.*) forwards them:
+    otherwise documented options such as clamped=False are silently ignored.  Zero instances on a tree that uses plain aliases;
+    a positive control is analysed on every run."""
+    def resolve(mod, f):
+        t = m.resolve_callable(mod, f)
+        return t.node if t is not None else None
+    fns = [(fi.mod, fi.node) for fi in m.funcs.values() if fi.kind == 'function' and fi.mod in ('utilities', 'knotvector', 'helpers')]
+    n = 0
+    for fn, c, fw in kw1_findings(fns, resolve):
+        n += 1
+        run.ob('KW1.delegation-forwards-options', '%s -> %s' % (fn.name, norm(c.func)), fw, 'forwards **kwargs' if fw else
+               '`%s` declares **kwargs but calls %s without them: every option (e.g. clamped=False) is silently dropped' % (fn.name, norm(c.func)), '')
+    ctl = ast.parse('def g(a, **kwargs):\n    return a\n\ndef w(a, **kwargs):\n    return g(a)\n')
+    hits = kw1_findings([('x', ctl.body[1])], lambda mod, f: ctl.body[0] if isinstance(f, ast.Name) and f.id == 'g' else None)
+    if [h[2] for h in hits] != [False]:
+        raise AnalysisError('KW1 positive control not reported: rule is broken')
+    run.ob('KW1.delegation-forwards-options', 'utilities/knotvector/helpers', True, '%d delegation wrappers found; positive control reported' % n)
+    # the compatibility names resolve to the knotvector functions themselves
+    for alias, target in (('generate_knot_vector', 'generate'), ('check_knot_vector', 'check'), ('normalize_knot_vector', 'normalize')):
+        fi = m.lookup_modfunc('utilities', alias)
+        run.note('KW1', 'utilities.' + alias, 'resolves to %s' % (fi.key if fi else None))
 
 
 # ---------------------------------------------------------------------------------------------- GD1
